@@ -35,7 +35,8 @@ import (
 //
 //	rt <typeByte> <valueSeed> <trailer>   build a value of the message type registered under typeByte
 //	     from valueSeed, WriteMsg it, append trailer, ReadMsg it back through a counting reader
-//	     => B<json body> F<frame written> <outcome> <consumed> <bodyReq> eq|ne|-
+//	     => B<json body> F<frame written> <outcome> <consumed> <bodyReq> eq|ne|- O<obj> V<val> W<val>
+//	     (O V W: canonical tree texts, see codecCanonJSONText / codecCanonValue; "-" when absent)
 //	rd <bytes> <chunk>                    ReadMsg(bytes) through a counting reader delivering at most
 //	     <chunk> bytes per Read (0 = as many as asked)
 //	     => <outcome> <consumed> <bodyReq>
@@ -126,7 +127,7 @@ func codec_errClass(err error) string {
 	case errors.Is(err, jsonMsg.ErrMsgFormat):
 		return "fmt"
 	default:
-		return "json" // whatever encoding/json (or a field's UnmarshalText) reported
+		return "json" // body-level: encoding/json, a field's UnmarshalText, or pkg/msg ErrInvalidBody
 	}
 }
 
@@ -326,6 +327,141 @@ func normalise(v reflect.Value) {
 	}
 }
 
+// ---------------------------------------------------------------- canonical tree texts
+//
+//	n | t | f | i<decimal> | r<raw number text> | s<hex> | [v,v,…] | {<hexkey>:v,…}   (keys sorted bytewise)
+
+func codecCanonAny(b *strings.Builder, v any) {
+	switch x := v.(type) {
+	case nil:
+		b.WriteByte('n')
+	case bool:
+		if x {
+			b.WriteByte('t')
+		} else {
+			b.WriteByte('f')
+		}
+	case json.Number:
+		t := x.String()
+		isInt := len(t) > 0
+		for i, c := range t {
+			if !(c >= '0' && c <= '9') && !(i == 0 && c == '-' && len(t) > 1) {
+				isInt = false
+			}
+		}
+		if isInt {
+			b.WriteString("i" + t)
+		} else {
+			b.WriteString("r" + t)
+		}
+	case string:
+		b.WriteString("s" + hex.EncodeToString([]byte(x)))
+	case []any:
+		b.WriteByte('[')
+		for i, e := range x {
+			if i > 0 {
+				b.WriteByte(',')
+			}
+			codecCanonAny(b, e)
+		}
+		b.WriteByte(']')
+	case map[string]any:
+		keys := make([]string, 0, len(x))
+		for k := range x {
+			keys = append(keys, k)
+		}
+		sort.Strings(keys)
+		b.WriteByte('{')
+		for i, k := range keys {
+			if i > 0 {
+				b.WriteByte(',')
+			}
+			b.WriteString(hex.EncodeToString([]byte(k)) + ":")
+			codecCanonAny(b, x[k])
+		}
+		b.WriteByte('}')
+	default:
+		b.WriteString("?")
+	}
+}
+
+// the real JSON body, parsed by encoding/json (trusted) into a generic tree
+func codecCanonJSONText(body []byte) string {
+	dec := json.NewDecoder(bytes.NewReader(body))
+	dec.UseNumber()
+	var v any
+	if err := dec.Decode(&v); err != nil {
+		return "?"
+	}
+	var b strings.Builder
+	codecCanonAny(&b, v)
+	return b.String()
+}
+
+// a Go message value walked by reflection into the same tree shape: struct = object keyed by Go
+// field name, nil slice/map/pointer = n, net.IP = its MarshalText ("" when empty)
+func codecValueTree(v reflect.Value) any {
+	switch v.Kind() {
+	case reflect.String:
+		return v.String()
+	case reflect.Bool:
+		return v.Bool()
+	case reflect.Int, reflect.Int64:
+		return json.Number(fmt.Sprint(v.Int()))
+	case reflect.Uint16:
+		return json.Number(fmt.Sprint(v.Uint()))
+	case reflect.Map:
+		if v.IsNil() {
+			return nil
+		}
+		m := map[string]any{}
+		for _, k := range v.MapKeys() {
+			m[k.String()] = codecValueTree(v.MapIndex(k))
+		}
+		return m
+	case reflect.Slice:
+		if v.Type() == reflect.TypeOf(net.IP{}) {
+			ip := v.Interface().(net.IP)
+			if len(ip) == 0 {
+				return ""
+			}
+			t, err := ip.MarshalText()
+			if err != nil {
+				return "?" + err.Error()
+			}
+			return string(t)
+		}
+		if v.IsNil() {
+			return nil
+		}
+		l := make([]any, v.Len())
+		for i := range l {
+			l[i] = codecValueTree(v.Index(i))
+		}
+		return l
+	case reflect.Pointer:
+		if v.IsNil() {
+			return nil
+		}
+		return codecValueTree(v.Elem())
+	case reflect.Struct:
+		m := map[string]any{}
+		for i := 0; i < v.NumField(); i++ {
+			if v.Type().Field(i).IsExported() {
+				m[v.Type().Field(i).Name] = codecValueTree(v.Field(i))
+			}
+		}
+		return m
+	}
+	return "?" + v.Kind().String()
+}
+
+func codecCanonValue(v reflect.Value) string {
+	var b strings.Builder
+	codecCanonAny(&b, codecValueTree(v))
+	return b.String()
+}
+
 // ---------------------------------------------------------------- exec
 
 func codecExec(tok []string) string {
@@ -351,6 +487,17 @@ func codecExec(tok []string) string {
 		r := &countingReader{data: append(append([]byte{}, frame...), trailer...), chunk: int(seed % 5)}
 		m, err := msg.ReadMsg(r)
 		eq := "-"
+		// object level (bodies within the bound only): O = the real JSON body as a canonical object
+		// text, V = the Go value that was written, W = the Go value that came back (reflection dumps,
+		// independent of encoding/json)
+		objO, objV, objW := "-", "-", "-"
+		if len(body) <= 10240 {
+			objO = codecCanonJSONText(body)
+			objV = codecCanonValue(reflect.ValueOf(buildValue(tb, seed)).Elem())
+			if err == nil && m != nil && reflect.TypeOf(m).Kind() == reflect.Pointer {
+				objW = codecCanonValue(reflect.ValueOf(m).Elem())
+			}
+		}
 		if err == nil && m != nil {
 			orig := buildValue(tb, seed) // fresh copy, WriteMsg might have touched v
 			normalise(reflect.ValueOf(orig).Elem())
@@ -363,7 +510,7 @@ func codecExec(tok []string) string {
 				eq = "ne"
 			}
 		}
-		return fmt.Sprintf("B%s F%s %s %d %d %s", hxb(body), hxb(frame), outcomeOf(m, err), r.off, r.bodyReq, eq)
+		return fmt.Sprintf("B%s F%s %s %d %d %s O%s V%s W%s", hxb(body), hxb(frame), outcomeOf(m, err), r.off, r.bodyReq, eq, objO, objV, objW)
 	case "rd":
 		data := []byte(unhx(tok[1]))
 		r := &countingReader{data: data, chunk: atoi(tok[2])}
